@@ -5,6 +5,7 @@ package main
 import (
 	"fmt"
 	"go/ast"
+	"go/constant"
 	"go/token"
 	"go/types"
 	"math/big"
@@ -603,6 +604,31 @@ func c10Index(p *Prog, r *Report) {
 					}
 				}
 			}
+			if par, ok := seq.(*ssa.Parameter); ok && !fromInput && fn.Parent() == nil {
+				// a slice parameter of a named function: the length is whatever the callers hand over. (Callbacks handed to
+				// the tryFold/tryPartial combinators are out of scope: their slice has the length of the child list passed
+				// alongside them, a relation between two values that no rule here establishes.)
+				need := k + 1
+				if _, isSliceOp := in.(*ssa.Slice); isSliceOp {
+					need = k
+				}
+				construct := fnQual(fn) + ":param " + par.Name() + "[" + itoa(int(k)) + "]"
+				if lenFactAtLeast(in.Block(), seq, need) {
+					r.OK(rule, construct, p.pos(pos), "dominated by a length test (len >= "+itoa(int(need))+")")
+					return
+				}
+				if why, ok := c10TableLength(p, fn, in.Block(), par, need); ok {
+					r.OK(rule, construct, p.pos(pos), why)
+					return
+				}
+				if why, ok := c10CallersGuarantee(p, fn, par, need, 0); ok {
+					r.OK(rule, construct, p.pos(pos), "every caller passes at least "+itoa(int(need))+" element(s): "+why)
+					return
+				} else {
+					r.Viol(rule, construct, p.pos(pos), "constant index "+itoa(int(k))+" into the slice parameter "+par.Name()+" without a dominating length test, and "+why+": a shorter slice panics here")
+				}
+				return
+			}
 			if !fromInput {
 				return
 			}
@@ -762,6 +788,162 @@ func c10Index(p *Prog, r *Report) {
 
 // lenFactAtLeast: on entry to block b, len(seq) >= need is established by a dominating comparison
 // (or an equality with a constant >= need).
+// c10TableLength: the access is under `len(par) == T[name].Args` (T the extension registry, name a parameter) and under
+// `name == "K"` for a constant K whose registry entry declares at least `need` arguments.
+func c10TableLength(p *Prog, fn *ssa.Function, b *ssa.BasicBlock, par *ssa.Parameter, need int64) (string, bool) {
+	reg := extRegistry(p)
+	var keyOfLen ssa.Value // the lookup key of the registry entry the length was compared with
+	var names []string
+	for _, g := range guardsAt(b) {
+		fg := flattenGuard(g)
+		bo, ok := fg.Cond.(*ssa.BinOp)
+		if !ok {
+			continue
+		}
+		eq := bo.Op == token.EQL && fg.Pol || bo.Op == token.NEQ && !fg.Pol
+		if !eq {
+			continue
+		}
+		for _, xy := range [][2]ssa.Value{{bo.X, bo.Y}, {bo.Y, bo.X}} {
+			x, y := xy[0], xy[1]
+			if c, ok := y.(*ssa.Const); ok && c.Value != nil && c.Value.Kind() == constant.String {
+				if _, isPar := stripConv(x).(*ssa.Parameter); isPar {
+					names = append(names, constant.StringVal(c.Value))
+					if keyOfLen == nil || true {
+						_ = x
+					}
+				}
+			}
+			ln, ok := x.(*ssa.Call)
+			if !ok || !isBuiltin(&ln.Call, "len") || ln.Call.Args[0] != ssa.Value(par) {
+				continue
+			}
+			var entry ssa.Value
+			if fl, ok := y.(*ssa.Field); ok {
+				if st := structOf(fl.X.Type()); st != nil && st.Field(fl.Field).Name() == "Args" {
+					entry = fl.X
+				}
+			}
+			if ld, ok := y.(*ssa.UnOp); ok && ld.Op == token.MUL {
+				if fa, ok := ld.X.(*ssa.FieldAddr); ok {
+					if al, ok := fa.X.(*ssa.Alloc); ok {
+						if st := structOf(al.Type().Underlying().(*types.Pointer).Elem()); st != nil && st.Field(fa.Field).Name() == "Args" {
+							entry = singleStore(al) // the entry was spilled into a local written exactly once
+						}
+					}
+				}
+			}
+			ex, ok := entry.(*ssa.Extract)
+			if !ok || ex.Index != 0 {
+				continue
+			}
+			lk, ok := ex.Tuple.(*ssa.Lookup)
+			if !ok {
+				continue
+			}
+			ld, ok := lk.X.(*ssa.UnOp)
+			if !ok {
+				continue
+			}
+			gl, ok := ld.X.(*ssa.Global)
+			if !ok || gl.Pkg.Pkg.Path() != pExt {
+				continue
+			}
+			keyOfLen = stripConv(lk.Index)
+		}
+	}
+	if keyOfLen == nil {
+		return "", false
+	}
+	if _, isPar := keyOfLen.(*ssa.Parameter); !isPar {
+		return "", false
+	}
+	// the name tests must be on the same parameter
+	for _, g := range guardsAt(b) {
+		fg := flattenGuard(g)
+		bo, ok := fg.Cond.(*ssa.BinOp)
+		if !ok || !(bo.Op == token.EQL && fg.Pol) {
+			continue
+		}
+		c, ok := bo.Y.(*ssa.Const)
+		if !ok || c.Value == nil || c.Value.Kind() != constant.String || stripConv(bo.X) != keyOfLen {
+			continue
+		}
+		k := constant.StringVal(c.Value)
+		if e, ok := reg[k]; ok && int64(e[0]) >= need {
+			return "under len(" + par.Name() + ") == registry[" + keyOfLen.Name() + "].Args and " + keyOfLen.Name() + " == \"" + k + "\", whose registry entry declares " + itoa(e[0]) + " argument(s)", true
+		}
+	}
+	return "", false
+}
+
+// c10CallersGuarantee: every call of fn found in the program passes, for the slice parameter par, a value of known
+// sufficient length: a fresh array-backed slice (variadic packing, composite literal), a make with constant length, a
+// value under a dominating length test at the call site, or the caller's own parameter for which the same holds.
+func c10CallersGuarantee(p *Prog, fn *ssa.Function, par *ssa.Parameter, need int64, depth int) (string, bool) {
+	if depth > 2 {
+		return "the chain of callers is too long to follow", false
+	}
+	idx := -1
+	for i, q := range fn.Params {
+		if q == par {
+			idx = i
+		}
+	}
+	node := p.CG().Nodes[fn]
+	if idx < 0 || node == nil {
+		return "the parameter cannot be located", false
+	}
+	if fn.Object() != nil && fn.Object().Exported() && fn.Signature.Recv() == nil && !strings.Contains(fnPkgPath(fn), "/internal/") {
+		return "the function is exported, so any caller can pass a short slice", false
+	}
+	n := 0
+	for _, e := range node.In {
+		if e.Site == nil {
+			continue
+		}
+		cc := e.Site.Common()
+		if cc.StaticCallee() != fn {
+			return "it is called indirectly at " + p.pos(e.Site.Pos()), false
+		}
+		if idx >= len(cc.Args) {
+			return "a call site passes fewer arguments", false
+		}
+		n++
+		a := cc.Args[idx]
+		good := false
+		if sl, ok := a.(*ssa.Slice); ok {
+			if al, ok := sl.X.(*ssa.Alloc); ok {
+				if at, ok := al.Type().Underlying().(*types.Pointer).Elem().Underlying().(*types.Array); ok && at.Len() >= need && sl.Low == nil && sl.High == nil {
+					good = true
+				}
+			}
+		}
+		if ms, ok := a.(*ssa.MakeSlice); ok {
+			if ln, isN := constInt(ms.Len); isN && ln >= need {
+				good = true
+			}
+		}
+		if !good && lenFactAtLeast(e.Site.Block(), a, need) {
+			good = true
+		}
+		if !good {
+			if cp, ok := a.(*ssa.Parameter); ok {
+				if _, ok2 := c10CallersGuarantee(p, e.Caller.Func, cp, need, depth+1); ok2 {
+					good = true
+				}
+			}
+		}
+		if !good {
+			return "the call at " + p.pos(e.Site.Pos()) + " passes a slice of unknown length", false
+		}
+	}
+	if n == 0 {
+		return "no call site was found", false
+	}
+	return itoa(n) + " call site(s)", true
+}
+
 func lenFactAtLeast(b *ssa.BasicBlock, seq ssa.Value, need int64) bool {
 	sameSeq := func(v ssa.Value) bool {
 		if v == seq {
